@@ -307,6 +307,39 @@ ApiModel buildApiModel(uint64_t seed, int variant, const ApiOpts* optsIn) {
 			}
 		desc << " +ported tangent block";
 	}
+	if (o.collisionVolumes) {
+		Rng cr(mix(seed, 0xC011));
+		int k = 0;
+		for (auto& name : M.shapeNames)
+			if (auto sh = nif.FindBlockByName<NiShape>(name)) {
+				auto cd = std::make_unique<NiCollisionData>();
+				cd->useABV = true;
+				auto fill = [&](BoundingVolume& bv, int kind) {
+					static const BoundVolumeType T[] = {SPHERE_BV, BOX_BV, CAPSULE_BV, HALFSPACE_BV};
+					bv.collisionType = T[kind % 4];
+					bv.bvSphere = BoundingSphere(Vector3(cr.range(-5, 5), cr.range(-5, 5), cr.range(-5, 5)), cr.range(1, 9));
+					bv.bvBox.center = Vector3(cr.range(-5, 5), 1, 2);
+					bv.bvCapsule.center = Vector3(3, cr.range(-5, 5), 1);
+					bv.bvHalfSpace.center = Vector3(cr.range(-5, 5), cr.range(-5, 5), 4.5f);
+					bv.bvHalfSpace.plane.normal = Vector3(0, 0.6f, 0.8f);
+					bv.bvHalfSpace.plane.constant = cr.range(1, 20);
+				};
+				int kind = k++ + (int)cr.below(5);
+				if (kind % 5 == 4) {
+					cd->boundingVolume.collisionType = UNION_BV;
+					cd->boundingVolume.bvUnion->numBV = 2;
+					cd->boundingVolume.bvUnion->boundingVolumes.resize(2);
+					fill(cd->boundingVolume.bvUnion->boundingVolumes[0], 0);
+					fill(cd->boundingVolume.bvUnion->boundingVolumes[1], 3);
+				}
+				else fill(cd->boundingVolume, kind);
+				cd->targetRef.index = nif.GetBlockID(sh);
+				uint32_t id = nif.GetHeader().AddBlock(std::move(cd));
+				sh = nif.FindBlockByName<NiShape>(name);
+				sh->collisionRef.index = id;
+			}
+		desc << " +collision volumes";
+	}
 	if (o.tangents) {
 		for (auto& name : M.shapeNames)
 			if (auto sh = nif.FindBlockByName<NiShape>(name))
